@@ -16,6 +16,15 @@ Shape of the output
     with `break/continue/return` -> `for_ctl` whose body answers `LNext/LBreak/LReturn`;
   * `while` -> `while_loop fuel`, the function gets a leading `fuel : nat`;
   * `a > b` is printed `b <? a` (both operands are already values, so the order is immaterial).
+Round 2 (see notes/T2.md): declared attributes of `self` and of opaque parameters (`options.max_width`)
+are leading arguments and can be narrowed (`assert self.number is not None`); IntEnum members are
+integer constants read from the class body; `Tuple[T, ...]` is a list; `str(int)` / f-strings of ints
+-> `py_str_int`; NamedTuple constructors with defaults, `cls(...)`, `_Segment = Segment`; properties
+of NamedTuple values; methods of opaque objects as function arguments (`console.get_style`); floats
+as exact rationals (`/` -> `py_qdiv`, Qmin/Qmax/Qceiling); generators (`yield`, `yield from`) as the
+list of what they yield; an object built by `self.__new__(C)` + attribute stores as the tuple of its
+declared attributes; abstract always-truthy object types as `(C : Type)` binders; `x is None or c(x)`,
+`if not opt:`; `return NotImplemented` in a binary dunder -> `Crash K_TypeError`.
 """
 import ast
 
@@ -27,7 +36,8 @@ KEYWORDS = {"end", "at", "in", "as", "fix", "fun", "if", "let", "match", "return
             "forallb", "fold_left", "foldM", "for_ctl", "while_loop", "mapM", "lctl", "LNext", "LBreak", "LReturn",
             "py_round_div", "py_ceil_div", "py_trunc_div", "py_floordiv", "py_mod", "py_idx", "py_pop",
             "py_append_last", "py_mul_list", "py_slice", "py_max_list", "py_min_list", "py_range", "py_enumerate",
-            "py_unpack2", "py_unpack3", "py_unpack4", "CELL_WIDTHS",
+            "py_unpack2", "py_unpack3", "py_unpack4", "CELL_WIDTHS", "py_str_int", "py_qdiv", "qltb", "q_zero",
+            "Q", "Qmake", "Qplus", "Qminus", "Qmult", "Qdiv", "Qopp", "Qmin", "Qmax", "Qceiling", "Qle_bool", "Qeq_bool", "inject_Z",
             # constructors in scope (a binder with such a name would be read as a pattern)
             "left", "right", "inl", "inr", "inleft", "inright", "exist", "existT", "conj", "eq_refl", "xH", "xI", "xO",
             "Z0", "Zpos", "Zneg", "N0", "Npos", "Eq", "Lt", "Gt", "Ascii", "String", "EmptyString", "or_introl",
@@ -52,6 +62,7 @@ def fail(node, why):
 
 # ------------------------------------------------------------------ types
 INT, BOOL, CHAR, OBJ, NONE, TOK = ("int",), ("bool",), ("char",), ("obj",), ("none",), ("tok",)
+FLOAT = ("float",)      # a Python float read as an exact rational (Q)
 POISON = ("poison",)
 
 
@@ -123,6 +134,10 @@ def gal(t, node=None):
         return "Z"
     if k == "bool":
         return "bool"
+    if k == "float":
+        return "Q"
+    if k == "abs":
+        return t[1]
     if k == "obj":
         return "unit"
     if k == "list":
@@ -144,7 +159,9 @@ def parse_type(src, aliases, node=None):
         n = src.id
         if n in aliases:
             return parse_type(aliases[n], aliases, node)
-        prim = {"int": INT, "bool": BOOL, "str": STR, "char": CHAR, "obj": OBJ, "tok": TOK}
+        if n in aliases.get("__abstract__", ()):
+            return ("abs", n)
+        prim = {"int": INT, "bool": BOOL, "str": STR, "char": CHAR, "obj": OBJ, "tok": TOK, "float": FLOAT}
         if n in prim:
             return prim[n]
     if isinstance(src, ast.Subscript) and isinstance(src.value, ast.Name):
@@ -154,6 +171,9 @@ def parse_type(src, aliases, node=None):
             return TList(parse_type(arg, aliases, node))
         if h == "Optional":
             return ("opt", parse_type(arg, aliases, node))
+        if (h == "Tuple" and isinstance(arg, ast.Tuple) and len(arg.elts) == 2
+                and isinstance(arg.elts[1], ast.Constant) and arg.elts[1].value is Ellipsis):
+            return TList(parse_type(arg.elts[0], aliases, node))     # variable-length tuple = list
         if h == "Tuple" and isinstance(arg, ast.Tuple):
             return ("tuple", tuple(parse_type(e, aliases, node) for e in arg.elts))
     fail(node or src, "unsupported type annotation " + ast.dump(src)[:60])
@@ -164,11 +184,13 @@ class Env:
     def __init__(self):
         self.vars = {}      # name -> type | POISON
         self.valid = {}     # alias name -> bool (the bound method still denotes the same list)
+        self.objs = {}      # object under construction -> (class, already used as a value)
 
     def copy(self):
         e = Env()
         e.vars = dict(self.vars)
         e.valid = dict(self.valid)
+        e.objs = dict(self.objs)
         return e
 
 
@@ -176,6 +198,12 @@ class Ctx:
     """how `return e`, `break`, `continue` are printed at this point"""
     def __init__(self, ret=None, brk=None, cont=None):
         self.ret, self.brk, self.cont = ret, brk, cont
+
+
+def gname(key):
+    if key.startswith("self."):
+        return "self_" + key[5:]
+    return mangle(key.replace(".", "__")) if "." in key else mangle(key)
 
 
 def mangle(name):
@@ -283,7 +311,9 @@ def definitely_assigns(stmts, v):
 class Fn:
     """registration record of one function to translate (see t_t2.py)"""
     def __init__(self, file, path, gname=None, params=None, self_type=None, self_fields=None, externs=None,
-                 consts=None, ctors=None, aliases=None, ret=None, fields=None):
+                 consts=None, ctors=None, aliases=None, ret=None, fields=None, enums=None,
+                 prop=False, abstract=None, objects=None, ignored_attrs=None,
+                 obj_fields=None, opaque_params=None):
         self.file, self.path = file, path
         self.gname = gname or path.split(".")[-1].lstrip("_") + "_gen"
         self.params = params or {}            # parameter name -> type string (overrides the annotation)
@@ -295,17 +325,27 @@ class Fn:
         self.aliases = aliases or {}          # type alias name -> type string
         self.ret = ret                        # return type string (overrides the annotation; optional)
         self.fields = fields or {}            # NamedTuple field -> (index, arity): `x.field` is a projection
+        self.enums = enums or {}              # IntEnum class name -> file defining it: members are int constants
+        self.prop = prop                      # a @property of a NamedTuple value: `x.name` calls it
+        self.abstract = abstract or []        # names of opaque, always-truthy object types: (C : Type) binders
+        self.objects = objects or {}          # class built by `self.__new__(C)` + attribute stores -> [(attr, type)]
+        self.ignored_attrs = ignored_attrs or []   # memo attributes whose `= None` stores are dropped
+        self.obj_fields = obj_fields or {}    # "param.attr" -> type: attribute of an opaque parameter, a leading argument
+        self.opaque_params = opaque_params or []   # parameters used only through obj_fields (console, options)
         # filled by translate():
         self.sig = None
 
 
 class FT:
-    def __init__(self, spec, node, registry, is_method):
+    def __init__(self, spec, node, registry, is_method, repo="/repo"):
         self.spec, self.node, self.reg = spec, node, registry
+        self.repo = repo
+        self.enum_vals = {}
         self.is_method = is_method
         self.tmp = 0
         self.fuel = False
         self.ret_ty = None
+        self.ctoralias = {}  # local name -> NamedTuple class it abbreviates (`_Segment = Segment`)
         self.alias = {}      # local name -> (kind, base)   kind: append | pop | append_last
         self.fnalias = {}    # local name -> function name
         self.mutated = set()
@@ -349,6 +389,9 @@ class FT:
                     fail(s, f"{name} is bound to two different methods")
                 self.alias[name] = a
                 self.mutated.add(a[1])
+            elif isinstance(v, ast.Name) and v.id in self.spec.ctors and v.id not in local:
+                self.ctoralias[name] = v.id
+                self.fnalias[name] = v.id      # same discipline: never a value, bound once
             elif isinstance(v, ast.Name) and self.is_function_name(v.id) and v.id not in local:
                 if self.fnalias.get(name, v.id) != v.id:
                     fail(s, f"{name} names two different functions")
@@ -412,6 +455,8 @@ class FT:
                     go(s.body)
                     go(s.orelse)
                 elif isinstance(s, (ast.Expr, ast.Return)) and s.value is not None:
+                    if isinstance(s.value, (ast.Yield, ast.YieldFrom)):
+                        add("t2out")
                     expr(s.value)
                 elif isinstance(s, ast.Assert):
                     expr(s.test)
@@ -468,13 +513,15 @@ class FT:
             return f"(negb {c})" if neg else c
         if k in ("int", "char") and k == "int":
             return f"({c} =? 0)" if neg else f"(negb ({c} =? 0))"
+        if k == "float":
+            return f"(Qeq_bool {c} q_zero)" if neg else f"(negb (Qeq_bool {c} q_zero))"
         if k == "list":
             return f"(negb (nonempty {c}))" if neg else f"(nonempty {c})"
         if k == "opt":
-            inner = self.truth("t2_o", t[1], node) if t[1] != OBJ else "true"
+            inner = self.truth("t2_o", t[1], node) if resolve(t[1])[0] not in ("obj", "abs") else "true"
             r = f"(match {c} with Some t2_o => {inner} | None => false end)"
             return f"(negb {r})" if neg else r
-        if k == "obj":
+        if k in ("obj", "abs"):
             return "false" if neg else "true"
         fail(node, f"truth value of {show(t)}")
 
@@ -531,12 +578,16 @@ class FT:
     def call_fn(self, name, args, node, env, B, selfarg=None):
         """call of a translated function / function argument"""
         if name in self.extern_sig:
-            ptys, rty, isres, fuel, g, lead = *self.extern_sig[name], False, mangle(name), []
+            ptys, rty, isres, fuel, g, lead, ext = *self.extern_sig[name], False, mangle(name.replace(".", "_")), [], []
         else:
             sig = self.reg[name]
             ptys, rty, isres, fuel, g, lead = sig["ptys"], sig["ret"], sig["res"], sig["fuel"], sig["gname"], sig["lead"]
+            ext = sig.get("externs", [])
         if lead:
             fail(node, f"{name} reads attributes of its object")
+        for e in ext:
+            if e not in self.extern_sig:
+                fail(node, f"{name} needs the function argument {e}, which this function does not declare")
         actual = ([selfarg] if selfarg is not None else []) + [self.ex(a, env, B) for a in args]
         if len(actual) != len(ptys):
             fail(node, f"{name}: every argument must be given positionally ({len(ptys)} expected)")
@@ -549,6 +600,7 @@ class FT:
             else:
                 unify(t, pt, node)
             codes.append(c)
+        codes = [mangle(e.replace(".", "_")) for e in ext] + codes
         if fuel:
             self.fuel = True
             codes.insert(0, "fuel")
@@ -573,11 +625,25 @@ class FT:
             return "None", NONE
         if isinstance(v, int):
             return zlit(v), INT
+        if isinstance(v, float):
+            from fractions import Fraction
+            fr = Fraction(repr(v))
+            return f"(Qmake {zlit(fr.numerator)} {fr.denominator}%positive)", FLOAT
         if isinstance(v, str):
             return "[" + "; ".join(str(ord(ch)) for ch in v) + "]", STR
         fail(node, "constant outside the subset")
 
     def ex_Name(self, node, env, B):
+        if node.id in env.objs:      # the constructed object as a value: the tuple of its attributes
+            cls, _ = env.objs[node.id]
+            parts = []
+            for attr, ts in self.spec.objects[cls]:
+                key = f"{node.id}.{attr}"
+                if key not in env.vars or env.vars[key] is POISON:
+                    fail(node, f"{key} is not set on every path")
+                parts.append((gname(key), env.vars[key]))
+            env.objs[node.id] = (cls, True)
+            return "(" + ", ".join(c for c, _ in parts) + ")", ("tuple", tuple(t for _, t in parts))
         return self.var(node, env)
 
     def ex_Tuple(self, node, env, B):
@@ -600,6 +666,8 @@ class FT:
         if isinstance(node.op, ast.Not):
             return self.truth_of(node, env, B), BOOL
         c, t = self.ex(node.operand, env, B)
+        if isinstance(node.op, ast.USub) and resolve(t) == FLOAT:
+            return f"(Qopp {c})", FLOAT
         if isinstance(node.op, ast.USub) and resolve(t) == INT:
             if isinstance(node.operand, ast.Constant):
                 return zlit(-node.operand.value), INT
@@ -608,14 +676,32 @@ class FT:
             return f"(Z.lnot {c})", INT
         fail(node, "unary operator outside the subset")
 
+    def as_q(self, c, t, node):
+        t = resolve(t)
+        if t == FLOAT:
+            return c
+        if t == INT:
+            return f"(inject_Z {c})"
+        fail(node, f"{show(t)} where a number is needed")
+
     def ex_BinOp(self, node, env, B):
         op = node.op
-        if isinstance(op, ast.Div):
-            fail(node, "true division outside round()/ceil()/int()")
         a, ta = self.ex(node.left, env, B)
         b, tb = self.ex(node.right, env, B)
         ta, tb = resolve(ta), resolve(tb)
         ints = ta == INT and tb == INT
+        nums = ta in (INT, FLOAT) and tb in (INT, FLOAT)
+        if isinstance(op, ast.Div):
+            if not nums:
+                fail(node, "true division of non-numbers")
+            t = self.fresh()      # true division: an exact rational, ZeroDivisionError on 0
+            B.append((t, f"py_qdiv {self.as_q(a, ta, node)} {self.as_q(b, tb, node)}", True))
+            return t, FLOAT
+        if nums and not ints:
+            qop = {ast.Add: "Qplus", ast.Sub: "Qminus", ast.Mult: "Qmult"}.get(type(op))
+            if qop is None:
+                fail(node, f"operator {type(op).__name__} on floats")
+            return f"({qop} {self.as_q(a, ta, node)} {self.as_q(b, tb, node)})", FLOAT
         if isinstance(op, ast.Add):
             if ints:
                 return f"({a} + {b})", INT
@@ -656,6 +742,13 @@ class FT:
         if all(resolve(t) == BOOL for _, t in vals):
             op = " && " if isinstance(node.op, ast.And) else " || "
             return "(" + op.join(c for c, _ in vals) + ")", BOOL
+        if isinstance(node.op, ast.Or) and len(vals) == 2:
+            (a, ta), (b, tb) = vals
+            ta, tb = resolve(ta), resolve(tb)
+            if not isinstance(ta, TVar) and ta[0] == "opt" and not (not isinstance(tb, TVar) and tb[0] == "opt") and tb != NONE:
+                ty = unify(ta[1], tb, node)     # Optional[T] or T -> T
+                tr = self.truth("t2_o", ty, node) if resolve(ty)[0] not in ("obj", "abs") else "true"
+                return f"(match {a} with Some t2_o => if {tr} then t2_o else {b} | None => {b} end)", ty
         # value form: `a or b` = a if a else b, `a and b` = b if a else a
         code, ty = vals[-1]
         for c, t in reversed(vals[:-1]):
@@ -683,6 +776,14 @@ class FT:
                 if type(op) in tbl:
                     parts.append(tbl[type(op)])
                     continue
+            if ta in (INT, FLOAT) and tb in (INT, FLOAT):
+                qa, qb = self.as_q(a, ta, node), self.as_q(b, tb, node)
+                tbl = {ast.Lt: f"(qltb {qa} {qb})", ast.LtE: f"(Qle_bool {qa} {qb})", ast.Gt: f"(qltb {qb} {qa})",
+                       ast.GtE: f"(Qle_bool {qb} {qa})", ast.Eq: f"(Qeq_bool {qa} {qb})",
+                       ast.NotEq: f"(negb (Qeq_bool {qa} {qb}))"}
+                if type(op) in tbl:
+                    parts.append(tbl[type(op)])
+                    continue
             if ta == BOOL and tb == BOOL and isinstance(op, (ast.Eq, ast.NotEq)):
                 c = f"(Bool.eqb {a} {b})"
                 parts.append(c if isinstance(op, ast.Eq) else f"(negb {c})")
@@ -692,13 +793,58 @@ class FT:
 
     def ex_IfExp(self, node, env, B):
         c = self.truth_of(node.test, env, B)
-        a, ta = self.pure(node.body, env, "branch of a conditional expression")
-        b, tb = self.pure(node.orelse, env, "branch of a conditional expression")
-        return f"(if {c} then {a} else {b})", unify(ta, tb, node)
+        Ba, Bb = [], []
+        a, ta = self.ex(node.body, env, Ba)
+        b, tb = self.ex(node.orelse, env, Bb)
+        ty = unify(ta, tb, node)
+        if not Ba and not Bb:
+            return f"(if {c} then {a} else {b})", ty
+        # a branch can raise: the conditional itself is bound, each arm keeps its own bindings
+        t = self.fresh()
+        B.append((t, f"(if {c} then\n{lift(wrap(Ba, (a, False)))}\nelse\n{lift(wrap(Bb, (b, False)))})", True))
+        return t, ty
+
+    def enum_member(self, cls, member, node):
+        """IntEnum member -> its integer, read from the class body in the source tree"""
+        if cls not in self.enum_vals:
+            import os
+            with open(os.path.join(self.repo, self.spec.enums[cls]), encoding="utf-8") as f:
+                tree = ast.parse(f.read())
+            vals = {}
+            for c in tree.body:
+                if isinstance(c, ast.ClassDef) and c.name == cls:
+                    for a in c.body:
+                        if (isinstance(a, ast.Assign) and len(a.targets) == 1 and isinstance(a.targets[0], ast.Name)
+                                and isinstance(a.value, ast.Constant) and isinstance(a.value.value, int)):
+                            vals[a.targets[0].id] = a.value.value
+            self.enum_vals[cls] = vals
+        if member not in self.enum_vals[cls]:
+            fail(node, f"{cls}.{member} is not an integer member")
+        return zlit(self.enum_vals[cls][member]), INT
+
+    def key_of(self, node):
+        """name under which a local or a declared attribute of self lives in the environment"""
+        if isinstance(node, ast.Name):
+            return node.id
+        if (isinstance(node, ast.Attribute) and isinstance(node.value, ast.Name) and node.value.id == "self"
+                and node.attr in self.spec.self_fields):
+            return "self." + node.attr
+        if (isinstance(node, ast.Attribute) and isinstance(node.value, ast.Name)
+                and f"{node.value.id}.{node.attr}" in self.spec.obj_fields):
+            return f"{node.value.id}.{node.attr}"
+        return None
 
     def ex_Attribute(self, node, env, B):
-        if isinstance(node.value, ast.Name) and node.value.id == "self" and node.attr in self.spec.self_fields:
-            return "self_" + node.attr, parse_type(self.spec.self_fields[node.attr], self.spec.aliases, node)
+        if isinstance(node.value, ast.Name) and node.value.id in self.spec.enums:
+            return self.enum_member(node.value.id, node.attr, node)
+        k = self.key_of(node)
+        if k is not None and k in env.vars:
+            if env.vars[k] is POISON:
+                fail(node, f"{k} holds a value this translation does not track")
+            return gname(k), env.vars[k]
+        if node.attr in self.reg and self.reg[node.attr].get("prop"):
+            recv = self.ex(node.value, env, B)
+            return self.call_fn(node.attr, [], node, env, B, selfarg=recv)
         if node.attr in self.spec.fields:
             i, n = self.spec.fields[node.attr]
             c, t = self.ex(node.value, env, B)
@@ -743,6 +889,15 @@ class FT:
 
     def ex_Call(self, node, env, B):
         f = node.func
+        if (isinstance(f, ast.Attribute) and isinstance(f.value, ast.Name)
+                and f"{f.value.id}.{f.attr}" in self.extern_sig):
+            # method of an opaque object, declared as a function argument: opaque parameters among the
+            # arguments are dropped, keyword arguments follow the positional ones in the order written
+            if any(k.arg is None for k in node.keywords):
+                fail(node, "**kwargs")
+            args = [a for a in list(node.args) + [k.value for k in node.keywords]
+                    if not (isinstance(a, ast.Name) and a.id in self.spec.opaque_params)]
+            return self.call_fn(f"{f.value.id}.{f.attr}", args, node, env, B)
         if node.keywords:
             fail(node, "keyword arguments")
         if isinstance(f, ast.Attribute):
@@ -759,6 +914,11 @@ class FT:
             if f.attr in self.reg and self.reg[f.attr]["method"]:
                 recv = self.ex(f.value, env, B)
                 return self.call_fn(f.attr, node.args, node, env, B, selfarg=recv)
+            if isinstance(f.value, ast.Name) and not node.args and f"{f.value.id}.{f.attr}()" in self.spec.consts:
+                g, ts = self.spec.consts[f"{f.value.id}.{f.attr}()"]
+                return g, parse_type(ts, self.spec.aliases, node)
+            if isinstance(f.value, ast.Name) and f"{f.value.id}.{f.attr}" in self.extern_sig:
+                return self.call_fn(f"{f.value.id}.{f.attr}", node.args, node, env, B)
             fail(node, f"method call .{f.attr}")
         if not isinstance(f, ast.Name):
             fail(node, "call of a computed function")
@@ -771,18 +931,39 @@ class FT:
                 return self.pop(base, node, env, B)
             fail(node, f"{name}(...) is a statement, not a value")
         name = self.fnalias.get(name, name)
+        name = self.ctoralias.get(name, name)
         if name in env.vars:
             fail(node, "call of a local variable")
         if self.is_function_name(name):
             return self.call_fn(name, node.args, node, env, B)
+        if name == "cls" and self.cls_name in self.spec.ctors:
+            name = self.cls_name
         if name in self.spec.ctors:
-            if len(node.args) != self.spec.ctors[name]:
-                fail(node, f"{name}() arity")
-            return self.ex_Tuple(ast.Tuple(elts=node.args, lineno=node.lineno), env, B)
+            return self.ctor(name, node, env, B)
         b = getattr(self, "bi_" + name, None)
         if b is None:
             fail(node, f"call of {name}")
         return b(node, env, B)
+
+    def ctor(self, name, node, env, B):
+        """NamedTuple(...) = tuple; trailing fields may come from declared defaults; arity 1 = the value"""
+        c = self.spec.ctors[name]
+        arity, defaults = (c, []) if isinstance(c, int) else c
+        parts = [self.ex(a, env, B) for a in node.args]
+        missing = arity - len(parts)
+        if missing < 0 or missing > len(defaults):
+            fail(node, f"{name}() arity")
+        for code, ts in (defaults[len(defaults) - missing:] if missing else []):
+            parts.append((code, parse_type(ts, self.spec.aliases, node)))
+        if name in self.spec.aliases:
+            want = parse_type(self.spec.aliases[name], self.spec.aliases, node)
+            if want[0] == "tuple" and len(want[1]) == arity:
+                for (c2, t2_), w in zip(parts, want[1]):
+                    unify(t2_, w, node)
+                parts = [(c2, w) for (c2, _), w in zip(parts, want[1])]
+        if arity == 1:
+            return parts[0]
+        return "(" + ", ".join(c2 for c2, _ in parts) + ")", ("tuple", tuple(t for _, t in parts))
 
     def pop(self, base, node, env, B):
         if base not in env.vars or env.vars[base] is POISON:
@@ -813,9 +994,17 @@ class FT:
             tmp = self.fresh()
             B.append((tmp, f"{lf} {c}", True))
             return tmp, INT
-        cs = self.ints(node, env, B)
-        code = cs[0]
-        for c in cs[1:]:
+        parts = [self.ex(a, env, B) for a in node.args]
+        if any(resolve(t) == FLOAT for _, t in parts):
+            cs = [self.as_q(c, t, node) for c, t in parts]
+            code = cs[0]
+            for c in cs[1:]:
+                code = f"({zf.replace('Z.', 'Q')} {code} {c})"
+            return code, FLOAT
+        for _, t in parts:
+            unify(t, INT, node)
+        code = parts[0][0]
+        for c, _ in parts[1:]:
             code = f"({zf} {code} {c})"
         return code, INT
 
@@ -891,6 +1080,32 @@ class FT:
             fail(node, "ord of something not declared a single character")
         return c, INT
 
+    def bi_str(self, node, env, B):
+        c, t = self.ex(node.args[0], env, B)
+        if resolve(t) != INT:
+            fail(node, "str() of something that is not an int")
+        return f"(py_str_int {c})", STR
+
+    def bi_tuple(self, node, env, B):
+        return self.bi_list(node, env, B)
+
+    def ex_JoinedStr(self, node, env, B):
+        parts = []
+        for v in node.values:
+            if isinstance(v, ast.Constant) and isinstance(v.value, str):
+                parts.append(self.ex_Constant(v, env, B)[0])
+            elif isinstance(v, ast.FormattedValue) and v.conversion == -1 and v.format_spec is None:
+                c, t = self.ex(v.value, env, B)
+                if resolve(t) == INT:
+                    parts.append(f"(py_str_int {c})")
+                elif resolve(t) == STR:
+                    parts.append(c)
+                else:
+                    fail(node, "f-string field that is neither an int nor a str")
+            else:
+                fail(node, "f-string with a conversion or a format spec")
+        return "(" + " ++ ".join(parts or ["[]"]) + ")", STR
+
     def bi_cast(self, node, env, B):
         return self.ex(node.args[1], env, B)
 
@@ -898,6 +1113,9 @@ class FT:
         c, t = self.ex(node.args[0], env, B)
         t = resolve(t)
         cls = node.args[1].id if isinstance(node.args[1], ast.Name) else None
+        if (cls in self.spec.aliases and not isinstance(t, TVar) and t[0] == "opt"
+                and resolve(t[1]) == parse_type(self.spec.aliases[cls], self.spec.aliases, node)):
+            return f"(match {c} with Some _ => true | None => false end)", BOOL
         kinds = {"int": ("int", "bool"), "bool": ("bool",), "str": None, "list": ("list",), "tuple": ("tuple",)}
         if cls not in kinds or isinstance(t, TVar) or t[0] in ("opt", "obj") or kinds[cls] is None:
             fail(node, "isinstance not decidable from the declared type")
@@ -908,6 +1126,12 @@ class FT:
             fail(node, f"{fn} of something that is not a true division")
         a, ta = self.ex(node.args[0].left, env, B)
         b, tb = self.ex(node.args[0].right, env, B)
+        if FLOAT in (resolve(ta), resolve(tb)):
+            if fn != "py_ceil_div":
+                fail(node, "round()/int() of a float quotient")
+            t = self.fresh()
+            B.append((t, f"py_qdiv {self.as_q(a, ta, node)} {self.as_q(b, tb, node)}", True))
+            return f"(Qceiling {t})", INT
         unify(ta, INT, node)
         unify(tb, INT, node)
         t = self.fresh()
@@ -999,6 +1223,34 @@ class FT:
             return rest(env)
         if isinstance(t, ast.Name) and t.id in self.fnalias:
             return rest(env)
+        v = s.value
+        if (isinstance(t, ast.Name) and isinstance(v, ast.Call) and isinstance(v.func, ast.Attribute)
+                and v.func.attr == "__new__" and len(v.args) == 1 and isinstance(v.args[0], ast.Name)
+                and v.args[0].id in self.spec.objects):
+            env = env.copy()       # an object under construction: its attributes are locals until it is read
+            env.objs[t.id] = (v.args[0].id, False)
+            env.vars.pop(t.id, None)
+            return rest(env)
+        if isinstance(t, ast.Attribute) and isinstance(t.value, ast.Name) and t.value.id in env.objs:
+            cls, frozen = env.objs[t.value.id]
+            if frozen:
+                fail(s, f"{t.value.id} is modified after it was used as a value")
+            if t.attr in self.spec.ignored_attrs:
+                if not (isinstance(v, ast.Constant) and v.value is None):
+                    fail(s, f"memo attribute {t.attr} set to something other than None")
+                return rest(env)
+            decl = dict(self.spec.objects[cls])
+            if t.attr not in decl:
+                fail(s, f"undeclared attribute {t.attr}")
+            B = []
+            self.popped = []
+            c, ty = self.ex_as(v, env, B, parse_type(decl[t.attr], self.spec.aliases, s))
+            self.popped = None
+            ty = unify(ty, parse_type(decl[t.attr], self.spec.aliases, s), s)
+            env = env.copy()
+            key = f"{t.value.id}.{t.attr}"
+            env.vars[key] = ty
+            return wrap(B + [(gname(key), c, False)], rest(env))
         B = []
         c, ty = self.expr_stmt(s.value, env, B)
         self.check_alias_copy(s, t, s.value, ty)
@@ -1030,6 +1282,20 @@ class FT:
         v = s.value
         if isinstance(v, ast.Constant) and isinstance(v.value, str):
             return rest(env)
+        if isinstance(v, ast.Yield) and self.generator and v.value is not None:
+            B = []        # a generator is the list of what it yields
+            c, ty = self.expr_stmt(v.value, env, B)
+            env = env.copy()
+            env.vars["t2out"] = unify(env.vars["t2out"], TList(ty), s)
+            self.ret_ty = unify(self.ret_ty, env.vars["t2out"], s)
+            return wrap(B + [("t2out", f"(t2out ++ [{c}])", False)], rest(env))
+        if isinstance(v, ast.YieldFrom) and self.generator:
+            B = []
+            c, ty = self.expr_stmt(v.value, env, B)
+            env = env.copy()
+            env.vars["t2out"] = unify(env.vars["t2out"], ty, s)
+            self.ret_ty = unify(self.ret_ty, env.vars["t2out"], s)
+            return wrap(B + [("t2out", f"(t2out ++ {c})", False)], rest(env))
         if not (isinstance(v, ast.Call) and len(v.args) == 1 and not v.keywords):
             fail(s, "expression statement outside the subset")
         f = v.func
@@ -1064,8 +1330,12 @@ class FT:
     def st_Return(self, s, env, ctx, rest):
         if ctx.ret is None:
             fail(s, "return here")
+        if s.value is None and self.generator:
+            return ctx.ret("t2out")
         if s.value is None:
             fail(s, "return without a value")
+        if isinstance(s.value, ast.Name) and s.value.id == "NotImplemented" and self.node.name.startswith("__"):
+            return "Crash K_TypeError", True      # a binary dunder answering NotImplemented: the operator raises
         B = []
         if self.declared_ret is not None:
             self.popped = []
@@ -1079,11 +1349,20 @@ class FT:
     def ex_as(self, node, env, B, want):
         """expression at a declared type: a value where Optional is declared becomes `Some v`"""
         want = resolve(want)
+        if isinstance(node, (ast.Tuple, ast.List)) and not isinstance(want, TVar) and want[0] == "list":
+            parts = [self.ex_as(e, env, B, want[1]) for e in node.elts]
+            et = want[1]
+            for _, t in parts:
+                et = unify(et, t, node)
+            return "[" + "; ".join(c for c, _ in parts) + "]", TList(et)
         if isinstance(node, ast.Tuple) and not isinstance(want, TVar) and want[0] == "tuple" and len(want[1]) == len(node.elts):
             parts = [self.ex_as(e, env, B, w) for e, w in zip(node.elts, want[1])]
             return "(" + ", ".join(c for c, _ in parts) + ")", ("tuple", tuple(t for _, t in parts))
         c, t = self.ex(node, env, B)
         rt = resolve(t)
+        inner = want[1] if (not isinstance(want, TVar) and want[0] == "opt") else want
+        if resolve(inner) == FLOAT and rt == INT:
+            c, t, rt = f"(inject_Z {c})", FLOAT, FLOAT
         if not isinstance(want, TVar) and want[0] == "opt" and rt != NONE and (isinstance(rt, TVar) or rt[0] != "opt"):
             return f"(Some {c})", ("opt", unify(t, want[1], node))
         return c, t
@@ -1099,6 +1378,14 @@ class FT:
         return ctx.cont(env)
 
     def st_Assert(self, s, env, ctx, rest):
+        nar = self.narrowing(s.test, env)
+        if nar is not None and nar[1] == "isnot":
+            name = nar[0]
+            e2 = env.copy()
+            e2.vars[name] = resolve(env.vars[name])[1]
+            g, tmp = gname(name), self.fresh()
+            return (f"match {g} with\n| Some {tmp} => let {g} := {tmp} in\n{lift(rest(e2))}\n"
+                    f"| None => Crash K_AssertionError\nend"), True
         B = []
         c = self.truth_of(s.test, env, B)
         return wrap(B, (f"if {c} then\n{lift(rest(env))}\nelse Crash K_AssertionError", True))
@@ -1117,13 +1404,15 @@ class FT:
     def narrowing(self, test, env):
         """-> (name, arm_if_some_is_body) for `x is None`, `x is not None`, `x` with x optional"""
         def opt(n):
-            t = env.vars.get(n.id) if isinstance(n, ast.Name) else None
+            t = env.vars.get(self.key_of(n))
             return t is not None and t is not POISON and not isinstance(resolve(t), TVar) and resolve(t)[0] == "opt"
         if (isinstance(test, ast.Compare) and len(test.ops) == 1 and isinstance(test.ops[0], (ast.Is, ast.IsNot))
                 and isinstance(test.comparators[0], ast.Constant) and test.comparators[0].value is None and opt(test.left)):
-            return test.left.id, ("isnot" if isinstance(test.ops[0], ast.IsNot) else "is")
+            return self.key_of(test.left), ("isnot" if isinstance(test.ops[0], ast.IsNot) else "is")
         if opt(test):
-            return test.id, "truthy"
+            return self.key_of(test), "truthy"
+        if isinstance(test, ast.UnaryOp) and isinstance(test.op, ast.Not) and opt(test.operand):
+            return self.key_of(test.operand), "falsy"
         return None
 
     def st_If(self, s, env, ctx, rest):
@@ -1157,6 +1446,24 @@ class FT:
 
     def branches(self, s, env, go):
         """the if/else skeleton; go(stmts, env) translates one arm to (code, is_res)"""
+        t = s.test
+        if (isinstance(t, ast.BoolOp) and isinstance(t.op, ast.Or) and len(t.values) >= 2
+                and (self.narrowing(t.values[0], env) or (None, None))[1] == "is"):
+            # `x is None or cond(x)`: cond is evaluated only where x is a value
+            name = self.narrowing(t.values[0], env)[0]
+            e_some = env.copy()
+            e_some.vars[name] = resolve(env.vars[name])[1]
+            g, tmp = gname(name), self.fresh()
+            B = []
+            restc = ast.BoolOp(op=ast.Or(), values=t.values[1:], lineno=s.lineno) if len(t.values) > 2 else t.values[1]
+            c = self.truth_of(restc, e_some, B)
+            if B:
+                fail(s, "short-circuited operand can raise")
+            none, yes, no = go(s.body, env), go(s.body, e_some), go(s.orelse, e_some)
+            r = none[1] or yes[1] or no[1]
+            f = (lambda x: lift(x)) if r else (lambda x: x[0])
+            return (f"match {g} with\n| None =>\n{f(none)}\n| Some {tmp} => let {g} := {tmp} in\n"
+                    f"if {c} then\n{f(yes)}\nelse\n{f(no)}\nend"), r
         nar = self.narrowing(s.test, env)
         if nar is None:
             B = []
@@ -1168,7 +1475,7 @@ class FT:
         inner = resolve(env.vars[name])[1]
         e_some = env.copy()
         e_some.vars[name] = inner
-        g = mangle(name)
+        g = gname(name)
         tmp = self.fresh()
         if kind == "is":
             some, none = go(s.orelse, e_some), go(s.body, env)
@@ -1180,10 +1487,13 @@ class FT:
             r = some[1] or none[1]
             f = (lambda x: lift(x)) if r else (lambda x: x[0])
             return f"match {g} with\n| Some {tmp} => let {g} := {tmp} in\n{f(some)}\n| None =>\n{f(none)}\nend", r
-        yes, no1, no2 = go(s.body, e_some), go(s.orelse, env), go(s.orelse, env)
+        if kind == "falsy":
+            yes, no1, no2 = go(s.orelse, e_some), go(s.body, env), go(s.body, env)
+        else:
+            yes, no1, no2 = go(s.body, e_some), go(s.orelse, env), go(s.orelse, env)
         r = yes[1] or no1[1]
         f = (lambda x: lift(x)) if r else (lambda x: x[0])
-        tr = self.truth(tmp, inner, s) if inner != OBJ else "true"
+        tr = self.truth(tmp, inner, s) if resolve(inner)[0] not in ("obj", "abs") else "true"
         return (f"match {g} with\n| Some {tmp} =>\nif {tr} then let {g} := {tmp} in\n{f(yes)}\nelse\n{f(no1)}\n"
                 f"| None =>\n{f(no2)}\nend"), r
 
@@ -1293,12 +1603,16 @@ class FT:
         env = Env()
         lead, plist, ptys = [], [], []
         selfval = False
+        self.cls_name = spec.path.split(".")[-2] if "." in spec.path else None
         if self.is_method and "staticmethod" not in deco:
             first = params.pop(0)
             defaults.pop(0)
             if "classmethod" in deco:
-                if any(isinstance(n, ast.Name) and n.id == first.arg for n in ast.walk(node)):
-                    fail(node, "cls is used")
+                uses = [n for n in ast.walk(node) if isinstance(n, ast.Name) and n.id == first.arg]
+                calls = [n for n in ast.walk(node) if isinstance(n, ast.Call) and isinstance(n.func, ast.Name)
+                         and n.func.id == first.arg]
+                if uses and (first.arg != "cls" or len(uses) != len(calls) or self.cls_name not in spec.ctors):
+                    fail(node, "cls is used other than as the declared constructor")
             elif spec.self_type:
                 env.vars[first.arg] = parse_type(spec.self_type, spec.aliases, node)
                 plist.append((mangle(first.arg), env.vars[first.arg]))
@@ -1306,6 +1620,7 @@ class FT:
             else:
                 for attr, ts in spec.self_fields.items():
                     lead.append(("self_" + attr, parse_type(ts, spec.aliases, node)))
+                    env.vars["self." + attr] = lead[-1][1]
                 for n in ast.walk(node):
                     if isinstance(n, ast.Name) and n.id == first.arg and first.arg != "self":
                         fail(node, "receiver not called self")
@@ -1314,7 +1629,12 @@ class FT:
                          and n.value.id == "self"]
                 if len(uses) != len(attrs) or any(isinstance(n.ctx, ast.Store) for n in attrs):
                     fail(node, "self is used other than to read declared attributes")
+        for key, ts in spec.obj_fields.items():
+            lead.append((gname(key), parse_type(ts, spec.aliases, node)))
+            env.vars[key] = lead[-1][1]
         for p, d in zip(params, defaults):
+            if p.arg in spec.opaque_params:
+                continue
             if p.arg in spec.params:
                 t = parse_type(spec.params[p.arg], spec.aliases, node)
             elif p.annotation is not None:
@@ -1339,29 +1659,40 @@ class FT:
             self.declared_ret = None
 
         def end(e):
+            if self.generator:
+                return "t2out", False
             fail(node, "a path reaches the end of the function without return")
+        self.generator = any(isinstance(n, (ast.Yield, ast.YieldFrom)) for n in ast.walk(node))
+        if self.generator:
+            if "t2out" in env.vars or any(isinstance(n, ast.Name) and n.id == "t2out" for n in ast.walk(node)):
+                fail(node, "a local is called t2out")
+            env.vars["t2out"] = TList(TVar())
+            self.declared_ret = None
         code, r = self.blk(node.body, env, Ctx(ret=lambda c: (c, False)), end)
+        if self.generator:
+            code = "let t2out := [] in\n" + code
         rt = self.ret_ty
         if spec.ret:
             rt = unify(rt, parse_type(spec.ret, spec.aliases, node), node)
         elif node.returns is not None:
             try:
-                rt = unify(rt, parse_type(node.returns, spec.aliases, node), node)
+                if not self.generator:
+                    rt = unify(rt, parse_type(node.returns, spec.aliases, node), node)
             except Untranslatable:
                 pass
-        binders = ([("fuel", None)] if self.fuel else []) + [(n, t) for n, t in self.extern_binders()] + lead + plist
+        binders = [(a2, "Type") for a2 in spec.abstract] + ([("fuel", None)] if self.fuel else []) + [(n, t) for n, t in self.extern_binders()] + lead + plist
         bs = " ".join(f"({n} : {t if isinstance(t, str) else ('nat' if t is None else gal(t, node))})" for n, t in binders)
         rg = gal(rt, node)
         text = f"Definition {spec.gname} {bs}\n  : {'res ' + rg if r else rg} :=\n{indent(code)}.\n"
         spec.sig = {"gname": spec.gname, "ptys": [t for _, t in plist], "ret": rt, "res": r, "fuel": self.fuel,
-                    "method": selfval, "lead": lead or self.extern_binders()}
+                    "method": selfval, "lead": lead, "externs": list(self.extern_sig), "prop": spec.prop}
         return text
 
     def extern_binders(self):
         out = []
         for k, (ptys, rty, isres) in self.extern_sig.items():
             t = " -> ".join([gal(p) for p in ptys] + [("res " + gal(rty)) if isres else gal(rty)])
-            out.append((mangle(k), t))
+            out.append((mangle(k.replace(".", "_")), t))
         return out
 
 
@@ -1403,7 +1734,7 @@ def translate_file(repo, specs, imports, registry=None):
             with open(path, encoding="utf-8") as f:
                 tree = ast.parse(f.read(), filename=path)
             node, is_method = find(tree, spec.path)
-            text = FT(spec, node, registry, is_method).translate()
+            text = FT(spec, node, registry, is_method, repo).translate()
         except Untranslatable as e:
             errors.append(f"{spec.file}:{spec.path}: {e}")
             continue
